@@ -18,7 +18,7 @@ def extra_builds(build):
     import os
     if not os.path.exists(os.path.join(os.path.dirname(os.path.abspath(__file__)), "harness", "src", "bin", "zprobe.rs")):
         return True
-    ok, _ = build(profiles=("dev", "release", "verif"), bins=("zprobe",))
+    ok, _ = build(profiles=("dev", "release", "verif"), bins=("zprobe",), parallel=True)
     return ok
 
 
@@ -56,6 +56,19 @@ def _c12_pregen(outdir, tier, seed):
             json.dump(decode_ref.gen_adversarial(s, seed), f)
 
 
+def _c02_pregen(outdir, tier, seed):
+    from oracle import check_c02
+    for s in ["ed25519", "ristretto255", "ed448", "p256", "secp256k1", "secp256k1-tr"]:
+        n = (10 if s == "ed448" else 24) if tier == "quick" else (60 if s == "ed448" else 200)
+        with open(os.path.join(outdir, f"refsigs.{s}.json"), "w") as f:
+            json.dump(check_c02.gen_reference_signatures(s, seed, n), f)
+
+
+def _c02_py(files, tier, seed, out):
+    from oracle import check_c02
+    return check_c02.check(files, "C02")
+
+
 def _c18_min(m, tier):
     if m["counts"].get("cells_unfilled", 0) > 0:
         return f"{m['counts']['cells_unfilled']} parity cells not observed often enough"
@@ -81,6 +94,13 @@ PROPS = {
         "python": lambda f, t, s, o: ck.check_sigs(f, "C01"),
         "minimum": _min_counts(sessions_judged=(2500, 20000), python_sigs_judged=(600, 1500), signer_set_non_prefix=(500, 5000)),
         "assumptions": COMMON_ASSUME + ["secret keys, polynomials and nonces are sampled, not enumerated"],
+    },
+    "C02": {
+        "level": "exploration", "eval_keys": ["python_sessions_rederived", "identifier_encodings", "reference_signatures_checked", "single_signer_signatures"],
+        "rule": "evaluations = signing sessions whose every recorded value (nonces from the drawn bytes, commitments, commitment-list encoding and order, binding-factor inputs and values, group commitment, challenge, interpolation coefficients, signature shares, final signature) was re-derived by the Python reference from the key shares, random bytes and message and compared byte for byte + all 65 535 u16 identifier encodings (exhaustive) + single-signer signatures exchanged with independent signers/verifiers in both directions; distinct = (identifier kind, key source, signer-count class, |S| class, message class)",
+        "python": _c02_py, "pregen": _c02_pregen,
+        "minimum": _min_counts(python_sessions_rederived=(600, 4000), identifier_encodings=(393210, 393210), reference_signatures_checked=(250, 1500), python_sigs_judged=(150, 1000)),
+        "assumptions": COMMON_ASSUME + ["the reference is pinned by oracle/selftest.py to every value of the RFC 9591 Appendix E vectors, RFC 8032 and BIP-340 vectors before any log is judged", "Taproot: RFC 9591 flow with BIP-340 challenge, x-only encodings and even-Y normalisation, written from the BIPs"],
     },
     "C03": {
         "level": "exploration", "eval_keys": ["sub_threshold_sets"],
@@ -197,10 +217,34 @@ PROPS = {
     },
 }
 
+def _c20_min(m, tier):
+    c = m["counts"]
+    if c.get("control_leaky_inline_reported", 0) < 18 or c.get("control_leaky_heap_reported", 0) < 18:
+        return "Leaky / LeakyVec controls were not reported in every suite and profile"
+    if c.get("control_blind", 0) > 0:
+        return f"forget-control did not see the secret in {c['control_blind']} probes (monitor blind)"
+    if c.get("conservation_missing_blocks", 0) > 0:
+        return f"{c['conservation_missing_blocks']} probes where an owned heap block never reached dealloc (coverage leak)"
+    return None
+
+
+PROPS["C20"] = {
+    "level": "exploration", "eval_keys": ["drops_checked", "zeroize_checked", "debug_renderings_checked"],
+    "profiles": ["dev", "release", "verif"], "probe": "zprobe",
+    "build": lambda build: build(profiles=("dev", "release", "verif"), bins=("zprobe",), parallel=True),
+    "weights": {"ed25519": 1, "ristretto255": 1, "ed448": 1, "p256": 1, "secp256k1": 1, "secp256k1-tr": 1},
+    "rule": "evaluations = drops of secret-bearing values (9 types, values from real protocol runs) placed in a harness-owned slot, a Box and a Vec, with the instrumented allocator scanning every freed block and the vacated storage for the secret scalars' memory image and canonical encoding + explicit zeroize() checks (getters, owned heap blocks, inline image) + Debug renderings searched for any encoding of a secret; repeated in dev, release and verif builds; distinct = (profile, type, placement/check)",
+    "minimum": _all(_min_counts(drops_checked=(2000, 30000), zeroize_checked=(800, 10000), debug_renderings_checked=(800, 10000)), _c20_min),
+    "assumptions": COMMON_ASSUME + ["only the storage the value occupied and the heap blocks it owned are observed — not registers, spilled temporaries or copies the compiler made", "SigningShare and Nonce are Copy and have no destructor (documented in the book): only the zeroize() and Debug clauses apply to them", "a hit must reproduce in three consecutive attempts (stale allocator contents do not reproduce)"],
+}
+
 MANIFEST_TEXT = {
     "C01": {"technique": "runtime monitoring: honest sessions under seeded shape/identifier/subset/message workloads, judged online by library + independent + external verifiers and offline by a Python RFC 8032 / BIP-340 / RFC 9591 reference",
             "text": "Exploration: thousands of honest sessions per ciphersuite over every (n,t) up to 6 (quick) / 12 (thorough) plus large shapes, five identifier kinds, dealer/DKG/edge keys, prefix and non-prefix signer sets of every size, 15 message classes. Every session must aggregate in all detection modes, every share must verify, and the decoded signature must be accepted by four independent verifiers.",
             "note": "Sampled over keys/nonces; curve crates are a calculator for the in-harness verifier; the Python sample does not depend on them."},
+    "C02": {"technique": "runtime monitoring with differential oracle: the library's recorded intermediates re-derived byte-for-byte offline by a from-scratch Python RFC 9591 / BIP-340 implementation; exhaustive u16 identifier encodings; independent signers and verifiers both ways",
+            "text": "Exploration, differential: sessions over identifier kinds (incl. > 65535, near-order, hash-derived), 2..12 signers, |S| = t / > t / = n, 15 message classes, dealer/DKG/edge keys; every value from nonce derivation to the final signature compared with the reference; identifier encodings exhaustive over u16; SigningKey::sign judged by the Python RFC 8032/BIP-340/RFC 9591 verifiers and RFC 8032 / BIP-340 / prime-order reference signers, ed25519-dalek and libsecp256k1 judged by the library.",
+            "note": "The Python reference is the trusted base, pinned to the RFC vectors."},
     "C03": {"technique": "runtime monitoring: every sub-threshold holder set driven through sign/aggregate/reconstruct with honest and lying thresholds; independent verifier judges whatever can be assembled",
             "text": "Exploration with exhaustive subsets per shape: every holder set of size 1..t-1 (sampled above a cap) must be refused by signer and coordinator, must never obtain a signature in any detection mode even when all thresholds are lowered or absent (also through frost-rerandomized), must not reconstruct the key; polynomial degree is probed from both sides.",
             "note": "Mechanical threshold enforcement only; unforgeability against arbitrary adversaries is not runtime-observable."},
@@ -249,6 +293,9 @@ MANIFEST_TEXT = {
     "C18": {"technique": "runtime monitoring with forced coverage: sessions repeated until all 8 parity combinations occurred; BIP-340/341 judged by libsecp256k1 and a Python reference",
             "text": "Exploration with forced coverage: dealer and DKG keys x root {absent, empty, 32, 5, 100 bytes, untweaked}; every parity cell observed >= 2 (quick) / 16 (thorough) times; output key per BIP-341, not valid under the internal key, share verification and cheater identification identical in every cell.",
             "note": "Taproot ciphersuite only."},
+    "C20": {"technique": "purpose-built secret sanitizer: instrumented global allocator scanning freed blocks, raw scan of vacated storage after drop_in_place, forget/Leaky controls; three build profiles",
+            "text": "Exploration: 9 secret-bearing types x 6 suites x values from real runs x {slot, Box, Vec} x {dev, release, verif} builds. After drop neither the vacated storage nor any heap block the value owned may contain the memory image or canonical encoding of a secret scalar; after zeroize() getters, owned heap buffers and the inline image are clean; Debug output contains no encoding of a secret. Controls (mem::forget, Leaky, LeakyVec) must fire, ownership conservation must hold, else inconclusive.",
+            "note": "Observes the value's own storage only; release build is what users ship."},
     "C19": {"technique": "runtime monitoring with fault injection: batches with invalid items at every position, cancelling pairs/triples, three verifier streams; constant-RNG control",
             "text": "Fault enumeration: sizes 0..16/64, mixed FROST and single-signer items, seven invalid kinds at every position, complementary pairs and triples, duplicates; verdict must equal the conjunction of individual verdicts judged three ways.",
             "note": "The probability bound is not measured."},
